@@ -314,13 +314,31 @@ Definition dispatch (r : router) (c : config) (g : grant) : answer :=
 
 (* ------------------------------------------------------------------ PKCE at the token endpoint *)
 
-(* how the verifier sent with the code relates to the challenge sent with the authorization request *)
-Inductive vrel := VS256 (* challenge = BASE64URL(SHA256(verifier)) *) | VPlain (* challenge = verifier *) | VNone.
+(* how the client redeeming the code authenticates (its registered method) *)
+Inductive client_kind := CBasic | CPost | CPKJWT | CPublic.
+
+(* the client's registered method is usable under this configuration
+   (AuthorizeCodeClient / LegacyServer.VerifyClient; credentials themselves are correct) *)
+Definition client_ok (c : config) (k : client_kind) : bool :=
+  match k with
+  | CBasic => true
+  | CPost => f_post c
+  | CPKJWT => f_pkjwt c
+  | CPublic => true
+  end.
+
+(* how the code_verifier of the token request relates to the challenge of the authorization request *)
+Inductive vrel :=
+| VS256     (* challenge = BASE64URL(SHA256(verifier)) *)
+| VPlain    (* challenge = verifier *)
+| VNone     (* a verifier is sent, related in neither way (or there is no challenge) *)
+| VAbsent.  (* no code_verifier parameter at all *)
 
 Inductive pkce_method := MS256 | MOther.   (* VerifyCodeChallenge hashes for "S256", compares as is otherwise *)
 
 Definition method_of (s : string) : pkce_method := if String.eqb s "S256" then MS256 else MOther.
 
+(* AuthorizeCodeChallenge on a stored challenge: an empty verifier is refused, else VerifyCodeChallenge *)
 Definition verify_challenge (m : pkce_method) (v : vrel) : bool :=
   match m, v with
   | MS256, VS256 => true
@@ -328,19 +346,33 @@ Definition verify_challenge (m : pkce_method) (v : vrel) : bool :=
   | _, _ => false
   end.
 
-(* public client (auth method none): both routers call AuthorizeCodeChallenge;
-   Config.CodeMethodS256 plays no part at the endpoints *)
-Definition pkce_issued (r : router) (c : config) (m : string) (v : vrel) : bool :=
-  verify_challenge (method_of m) v.
+(* code exchange: ch = the code_challenge_method sent with the authorization request (None: no challenge).
+   Provider router (AuthorizeCodeClient): a stored challenge is always checked; without one a public
+   client is refused ("PKCE required") and a verifier sent by a confidential client is ignored.
+   LegacyServer.CodeExchange: the check runs for public clients, when a verifier is sent, or when a
+   challenge is stored; against no challenge every verifier fails. *)
+Definition pkce_issued (r : router) (c : config) (k : client_kind) (ch : option string) (v : vrel) : bool :=
+  client_ok c k &&
+  match ch with
+  | Some m => verify_challenge (method_of m) v
+  | None =>
+      match k with
+      | CPublic => false
+      | _ => match r with
+             | RProvider => true
+             | RLegacy => match v with VAbsent => true | _ => false end
+             end
+      end
+  end.
 
-(* what the method named m demands of the verifier (RFC 7636 4.6) *)
+(* what the method named m demands of the verifier (RFC 7636 4.6); a missing verifier never satisfies it *)
 Definition rel_matches (m : string) (v : vrel) : bool :=
   if String.eqb m "S256" then match v with VS256 => true | _ => false end
   else if String.eqb m "plain" then match v with VPlain => true | _ => false end
   else false.
 
 (* ------------------------------------------------------------------ request objects at the authorization endpoint
-   for a request object correctly signed by the client's registered key *)
+   for a request object correctly signed by the key registered for the client (of any kind) *)
 
 Inductive ro_result := RoHonoured | RoNotSupported | RoOther | RoPanic.
 
@@ -350,9 +382,10 @@ Definition ro_eqb (a b : ro_result) : bool :=
   | _, _ => false
   end.
 
-Definition reqobj_outcome (r : router) (c : config) : ro_result :=
+(* the authorization endpoint does not authenticate the client: its kind plays no part *)
+Definition reqobj_outcome (r : router) (c : config) (k : client_kind) : ro_result :=
   match r with
-  | RProvider => if f_reqobj c then RoHonoured else RoNotSupported   (* Authorize: lines "RequestParam != """ *)
+  | RProvider => if f_reqobj c then RoHonoured else RoNotSupported   (* Authorize *)
   | RLegacy => if f_reqobj c then RoHonoured else RoNotSupported     (* LegacyServer.VerifyAuthRequest *)
   end.
 
